@@ -184,6 +184,20 @@ func Breakable[V any](s Seq[V]) Seq[V] {
 	}
 }
 
+// Continuable runs s as the body of a loop whose post statement suspends and
+// therefore follows the body in a Combine: a Continue raised inside s ends s
+// normally, so that the post statement still runs.
+func Continuable[V any](s Seq[V]) Seq[V] {
+	return func(c *co[V], k cont[V]) {
+		s(c, func(t contType, v V) {
+			if t == kContinue {
+				t = kNormal
+			}
+			k(t, v)
+		})
+	}
+}
+
 func seqOfK[V any](kt contType) Seq[V] {
 	return func(c *co[V], k cont[V]) {
 		k(kt, zero[V]())
